@@ -215,6 +215,7 @@ fn scenario(job: Job, n: usize, p: u64, cap: usize, batch: BatchMode, bound: usi
         shards: 1,
         nontrivial: n > 0,
         unbounded: false,
+        loop_body: false,
     }
 }
 
